@@ -153,3 +153,17 @@ Fixpoint nodup_z (l : list Z) : bool :=
   | x :: r => negb (existsb (Z.eqb x) r) && nodup_z r
   end.
 Definition one_op_per_label (b : lblock) : bool := nodup_z (map l_lbl (b_labels b)).
+
+(* ---- 5. a variant of get_extension_type_ID, for the refutation in Props/C19.v --------------------- *)
+(* `extension_id = 1 + self.extension_numeric_idx[-1]` instead of `1 + max(self.extension_numeric_idx)`:
+   the same function as long as the id list is ascending (ids created in memory), different after a
+   read() that lists the ids in file-section order *)
+Definition ext_type_id_last (c : core) (s : Z) : core * Z :=
+  match index_of s (ext_str c) with
+  | Some n => (c, nth n (ext_num c) 0)
+  | None =>
+    let id := match ext_num c with [] => 1 | _ => 1 + last (ext_num c) 0 end in
+    (mkCore (rf_l c) (grad_l c) (adc_l c) (trig_l c) (lset_l c) (linc_l c) (ext_l c) (shape_l c)
+            (blocks c) (durs c) (next_block c) (ext_num c ++ [id]) (ext_str c ++ [s])
+            (grad_raster c) (sys_raster c) (max_slew c) (eps_ c), id)
+  end.
